@@ -38,9 +38,9 @@ namespace
 
     // ops: [k, item, list, target]
     enum { C_ADD_NEXT, C_ADD_PREV, C_ADD_AFTER, C_ADD_BEFORE, C_DEL, C_DEL_INIT, C_MOVE, C_MOVE_TAIL, C_MOVE_AFTER, C_MOVE_BEFORE,
-           C_MOVE_SORTED, C_INSTEAD, C_DEATH, C_N };
+           C_MOVE_SORTED, C_INSTEAD, C_DEATH, C_TAKEOVER, C_N };
     const char *C_NAME[] = {"add_next", "add_prev", "add_after", "add_before", "del", "del_init", "move", "move_tail", "move_after", "move_before",
-                            "move_sorted", "insert_instead", "death"};
+                            "move_sorted", "insert_instead", "death", "head_takeover"};
 
     struct CDlistWorld : World
     {
@@ -190,6 +190,13 @@ namespace
                     }
                     else
                     {
+                        if (k == C_INSTEAD && st[t] == UNLINKED && t != i)
+                        {
+                            // replacing a node that is itself unlinked (self-linked): both end up unlinked
+                            dlist_insert_instead(n, &it[t]->lnk);
+                            probe("insert_instead_of_unlinked");
+                            break;
+                        }
                         if (st[t] != LINKED || t == i) { done = false; break; }
                         if (k == C_ADD_AFTER) { dlist_add_next(n, &it[t]->lnk); ins_rel(i, t, true); }
                         else if (k == C_ADD_BEFORE) { dlist_add_prev(n, &it[t]->lnk); ins_rel(i, t, false); }
@@ -259,6 +266,19 @@ namespace
                     unlink_model(i);
                     ins_rel(i, t, k == C_MOVE_AFTER);
                     moves++;
+                    break;
+                }
+                case C_TAKEOVER:
+                {
+                    // whole-list splice: a fresh head takes the place of list l's head (dlist_insert_instead on heads, as
+                    // igris::series' move constructor does); the old head must come out empty and self-linked
+                    std::unique_ptr<dlist_head> nh(new dlist_head());
+                    dlist_init(nh.get());
+                    if (m[l].empty()) probe("takeover_of_empty_list");
+                    dlist_insert_instead(nh.get(), h);
+                    if (h->next != h || h->prev != h) violate("C01/c-dlist-takeover", "after dlist_insert_instead the replaced list head is not self-linked");
+                    heads[l] = std::move(nh);
+                    probe("head_takeover");
                     break;
                 }
                 case C_DEATH:
